@@ -401,6 +401,12 @@ def sessions(ck, n):
                     levels[j][k] = rng.randint(1, top)
                 elif r < 0.45:
                     levels[j][k] = '%d!' % rng.randint(1, top)
+        if i % 3 == 0:
+            # only the selected machine defines the settings: what `-m` on the real command line has to deliver
+            for k in RAW3:
+                for j in range(1, 7):
+                    levels[j].pop(k, None)
+                levels[0][k] = rng.choice([2, 3, '2!', '3!'])
         cli = rng.choice([[], [], ['-in', '2'], ['-it', '5'], ['-q']])
         inv_o, it_o = overrides_of(cli)
         want = oracle_effective([dict(d) for d in levels], inv_o, it_o)
@@ -414,6 +420,13 @@ def sessions(ck, n):
         r = drive.run_session(wd, cli + ['-m', 'm', conf], script)
         ck.impl_traces += 1
         inp = {'levels(low->high)': dict(zip(LEVELS, [dict(d) for d in levels])), 'cli': cli, 'session': True}
+        if i % 5 == 0:
+            # a machine that the configuration does not define is a usage error, never silently ignored
+            ru = drive.run_session(wd, cli + ['-m', 'no-such-machine', conf], script)
+            ck.impl_traces += 1
+            if ru.crash or ru.exit == 0 or ru.starts:
+                ck.oracle_fail('unknown_machine_rejected', dict(inp, machine='no-such-machine'),
+                               {'status': ru.status(), 'starts': len(ru.starts)}, {'setting': 'machine'})
         ck.case(nontrivial_key='sess' + json.dumps(inp, sort_keys=True, default=str), sample=None)
         ck.count('kind:session')
         if r.crash or r.exit not in (0,):
